@@ -5,10 +5,10 @@ set -u
 id=$1; k=$2; base=${M_BASE:-/tmp/m}; off=${K_OFFSET:-0}; n=$((k+off)); src=$base/$id/out/$k; wt=/tmp/cs_${id}_${k}_$$
 git -C /repo worktree add --detach $wt HEAD >/dev/null 2>&1
 export JAX_PLATFORMS=cpu XLA_FLAGS=--xla_force_host_platform_device_count=8 TF_CPP_MIN_LOG_LEVEL=3
-timeout 900 /venv/bin/python $src/demo.py $wt >/tmp/cs_clean.log 2>&1; clean=$?
+timeout 900 /venv/bin/python $src/demo.py $wt >/tmp/cs_clean_$$.log 2>&1; clean=$?
 git -C $wt apply $src/patch.diff; ap=$?
-timeout 900 /venv/bin/python $src/demo.py $wt >/tmp/cs_patched.log 2>&1; patched=$?
-echo "$id-$n apply=$ap demo_clean_exit=$clean demo_patched_exit=$patched : $(grep -i -m1 fail /tmp/cs_patched.log | cut -c1-200)"
+timeout 900 /venv/bin/python $src/demo.py $wt >/tmp/cs_patched_$$.log 2>&1; patched=$?
+echo "$id-$n apply=$ap demo_clean_exit=$clean demo_patched_exit=$patched : $(grep -i -m1 fail /tmp/cs_patched_$$.log | cut -c1-200)"
 git -C /repo worktree remove --force $wt
 if [ $clean -eq 0 ] && [ $patched -ne 0 ] && [ $ap -eq 0 ]; then
   mkdir -p /verif/seeded/$id-$n && cp $src/patch.diff $src/demo.py /verif/seeded/$id-$n/
@@ -20,3 +20,4 @@ m['confirmed']={'demo_on_clean_tree_exit':$clean,'demo_with_patch_exit':$patched
 json.dump(m,open('/verif/seeded/$id-$n/meta.json','w'),indent=1)
 PY
 fi
+rm -f /tmp/cs_clean_$$.log /tmp/cs_patched_$$.log
